@@ -76,7 +76,7 @@ def _update_pending(pending, event, st):
     return p
 
 
-def explore_program(src, seed, walks=6, walk_len=10, exhaustive_depth=2, max_traces=60, picks=(0, 1)):
+def explore_program(src, seed, walks=6, walk_len=10, exhaustive_depth=2, max_traces=60, picks=(0, 1), json_walks=2):
     """Returns (traces, errors). A trace is {"steps": [step records]}; errors are exceptions escaping run_to_completion."""
     rnd = random.Random(seed)
     colang2.install_scripted_random()
@@ -92,8 +92,15 @@ def explore_program(src, seed, walks=6, walk_len=10, exhaustive_depth=2, max_tra
     static = progs2.alphabet_of(src)
     pend0 = _update_pending({}, ev0, base)
 
-    def run(st, pending, history, steps, event, pick):
+    def run(st, pending, history, steps, event, pick, hop=False):
         st2 = copy.deepcopy(st)
+        if hop:
+            # the state is saved to JSON and restored before the event (what LLMRails does between two requests)
+            from nemoguardrails.colang.v2_x.runtime.serialization import json_to_state, state_to_json
+            try:
+                st2 = json_to_state(state_to_json(st2))
+            except Exception:
+                pass      # states that cannot be saved are C11's business
         colang2._scripted.picks = [pick] * 16
         try:
             st2 = sm.run_to_completion(st2, dict(event))
@@ -121,15 +128,16 @@ def explore_program(src, seed, walks=6, walk_len=10, exhaustive_depth=2, max_tra
 
     dfs(base, pend0, [], [first], 0)
     # random walks
-    for w in range(walks):
+    for w in range(walks + json_walks):
         st, pending, history, steps = base, pend0, [], [first]
         pick = picks[w % len(picks)]
+        hops = w >= walks
         for _ in range(walk_len):
             alphabet = static + action_events(pending)
             # bias towards action events so that action life cycles are exercised
             acts = action_events(pending)
             ev = rnd.choice(acts) if acts and rnd.random() < 0.4 else rnd.choice(alphabet)
-            r = run(st, pending, history, steps, ev, pick)
+            r = run(st, pending, history, steps, ev, pick, hop=hops and rnd.random() < 0.5)
             if r is None:
                 break
             st, pending, history, steps = r
